@@ -695,6 +695,46 @@ Proof.
 Qed.
 Lemma prefixb_nil s : prefixb [] s = true.
 Proof. destruct s; reflexivity. Qed.
+(* the three rule forms: what "name*" and "*name*" mean *)
+Lemma prefixb_iff p s : prefixb p s = true <-> exists b, s = p ++ b.
+Proof.
+  revert s. induction p as [|x p IH]; intros s.
+  - rewrite prefixb_nil. split; [intros _; exists s; reflexivity | intros _; reflexivity].
+  - destruct s as [|y s]; cbn [prefixb].
+    + split; [discriminate | intros [b H]; cbn in H; discriminate].
+    + rewrite andb_true_iff, N.eqb_eq, IH. split.
+      * intros [-> [b ->]]. exists b. reflexivity.
+      * intros [b H]. cbn in H. injection H as -> ->. split; [reflexivity | exists b; reflexivity].
+Qed.
+Lemma containsb_iff p s : containsb p s = true <-> exists a b, s = a ++ p ++ b.
+Proof.
+  induction s as [|y s IH]; cbn [containsb]; rewrite orb_true_iff, prefixb_iff.
+  - split.
+    + intros [[b H] | H]; [exists [], b; exact H | discriminate].
+    + intros [a [b H]]. left. destruct a; [exists b; exact H | cbn in H; discriminate].
+  - rewrite IH. split.
+    + intros [[b H] | [a [b H]]]; [exists [], b; exact H | exists (y :: a), b; cbn; rewrite H; reflexivity].
+    + intros [a [b H]]. destruct a as [|z a];
+        [left; exists b; exact H | right; cbn in H; injection H as Hz H; exists a, b; exact H].
+Qed.
+Lemma contains_rule_decides seg en cat t :
+  cat_pass [{| r_name := seg; r_kind := KContains; r_type := None; r_enabled := en |}] cat t
+  = if containsb seg cat then en else true.
+Proof. unfold cat_pass, rule_matches. cbn [fold_left r_kind r_name r_type r_enabled]. rewrite andb_true_r. reflexivity. Qed.
+Lemma contains_rule_rejects_iff seg en cat t :
+  cat_pass [{| r_name := seg; r_kind := KContains; r_type := None; r_enabled := en |}] cat t = false
+  <-> en = false /\ exists a b, cat = a ++ seg ++ b.
+Proof.
+  rewrite contains_rule_decides, <- containsb_iff.
+  destruct (containsb seg cat), en; cbn; intuition discriminate.
+Qed.
+Lemma prefix_rule_rejects_iff nm en cat t :
+  cat_pass [{| r_name := nm; r_kind := KPrefix; r_type := None; r_enabled := en |}] cat t = false
+  <-> en = false /\ exists b, cat = nm ++ b.
+Proof.
+  rewrite <- prefixb_iff. unfold cat_pass, rule_matches. cbn [fold_left r_kind r_name r_type r_enabled].
+  rewrite andb_true_r. destruct (prefixb nm cat), en; cbn; intuition discriminate.
+Qed.
 Lemma rx_text_empty r s : emptyb (rx_text r) = true -> rx_match r s = true.
 Proof.
   destruct r; cbn [rx_text rx_match].
